@@ -405,7 +405,8 @@ def judge(case, run, result):
                 problems.append(("generation %d: shutdown() of a runner whose accept had been rejected raised %s(%s)" % (g, e["exc"], e["msg"]), None))
             if run.of("rejected-runner-shut-down", gen=g):
                 result.count("rejected_runners_shut_down_beside_the_active_one")
-                first_stop = run.first("call", gen=g, op="shutdown") or run.first("fail", gen=g) or run.first("mark", gen=g)
+                stops = [e for e in (run.first("call", gen=g, op="shutdown"), run.first("fail", gen=g), run.first("mark", gen=g)) if e is not None]
+                first_stop = min(stops, key=lambda e: e["seq"]) if stops else None  # whichever came first
                 if ended is not None and (first_stop is None or ended["seq"] < first_stop["seq"]):
                     problems.append(("generation %d: the active runner's accept ended (%s) before anybody stopped it - after a rejected runner was shut down"
                                      % (g, ended.get("outcome")), None))
